@@ -37,42 +37,39 @@ Section Ops.
   Variable keccak : bytes -> N.
 
   Definition pops (op : N) : nat :=
-    match op with
-    | 0xe0 => 3%nat | 0xe1 => 4%nat | 0xe2 => 6%nat | 0xe3 => 5%nat | 0xe4 => 6%nat | 0xe5 => 5%nat
-    | 0xe6 => 4%nat | 0xe7 => 2%nat
-    | _ => 0%nat
+    if op =? 0xe0 then 3 else if op =? 0xe1 then 4 else if op =? 0xe2 then 6 else if op =? 0xe3 then 5
+    else if op =? 0xe4 then 6 else if op =? 0xe5 then 5 else if op =? 0xe6 then 4 else if op =? 0xe7 then 2 else 0%nat.
+
+  Definition with_mem_string (t : tracer) (ptr : N) (mem : bytes) (k : bytes -> tracer * res unit) : tracer * res unit :=
+    match load_data_from_mem ptr mem with
+    | Ok s => k s
+    | Err e => (t, Err e)
+    | Panic w => (t, Panic w)
     end.
 
+  (** operands are the stack words, top first: [a 0] is popped first *)
   Definition jop (op : N) (self : N) (mem : bytes) (stack : list N) (t : tracer) : tracer * res unit :=
-    match op, stack with
-    | 0xe0, namep :: slot :: ty :: _ =>            (* RSVJNAL opReferenceStateVarJournal *)
-      match load_data_from_mem namep mem with
-      | Ok name => t_save_key t self None slot None ty name
+    let a := fun i => nth i stack 0 in
+    if Nat.ltb (length stack) (pops op) then (t, Err "stack underflow")
+    else if op =? 0xe0 then                       (* RSVJNAL opReferenceStateVarJournal: namePtr slot typeId *)
+      with_mem_string t (a 0%nat) mem (fun name => t_save_key t self None (a 1%nat) None (a 2%nat) name)
+    else if op =? 0xe1 then                       (* VSVJNAL opValueStateVarJournal: namePtr slot offset typeId *)
+      with_mem_string t (a 0%nat) mem (fun name => t_save_key t self None (a 1%nat) (Some (a 2%nat)) (a 3%nat) name)
+    else if op =? 0xe2 then                       (* IRVVJNAL: base slot keyPtr offset typeId parentTypeId *)
+      with_mem_string t (a 2%nat) mem (fun key => t_save_key t self (Some (a 0%nat, a 5%nat)) (a 1%nat) (Some (a 3%nat)) (a 4%nat) key)
+    else if op =? 0xe3 then                       (* IRVRJNAL: base slot keyPtr typeId parentTypeId *)
+      with_mem_string t (a 2%nat) mem (fun key => t_save_key t self (Some (a 0%nat, a 4%nat)) (a 1%nat) None (a 3%nat) key)
+    else if op =? 0xe4 then                       (* IVVVJNAL: base slot keyValue offset typeId parentTypeId *)
+      t_save_key t self (Some (a 0%nat, a 5%nat)) (a 1%nat) (Some (a 3%nat)) (a 4%nat) (word_bytes (a 2%nat))
+    else if op =? 0xe5 then                       (* IVVRJNAL: base slot keyValue typeId parentTypeId *)
+      t_save_key t self (Some (a 0%nat, a 4%nat)) (a 1%nat) None (a 3%nat) (word_bytes (a 2%nat))
+    else if op =? 0xe6 then                       (* VVJNAL opValueChangeJournal: slot offset typeSize typeId *)
+      match vv_slice (st (a 0%nat)) (a 1%nat) (a 2%nat) with
+      | Ok v => t_save_change t self (a 0%nat) (Some (a 1%nat)) (a 3%nat) v
       | Err e => (t, Err e) | Panic w => (t, Panic w) end
-    | 0xe1, namep :: slot :: off :: ty :: _ =>     (* VSVJNAL opValueStateVarJournal *)
-      match load_data_from_mem namep mem with
-      | Ok name => t_save_key t self None slot (Some off) ty name
+    else if op =? 0xe7 then                       (* VRJNAL opReferenceChangeJournal: slot typeId *)
+      match vr_read st keccak (a 0%nat) with
+      | Ok v => t_save_change t self (a 0%nat) None (a 1%nat) v
       | Err e => (t, Err e) | Panic w => (t, Panic w) end
-    | 0xe2, base :: slot :: keyp :: off :: ty :: pty :: _ =>   (* IRVVJNAL *)
-      match load_data_from_mem keyp mem with
-      | Ok key => t_save_key t self (Some (base, pty)) slot (Some off) ty key
-      | Err e => (t, Err e) | Panic w => (t, Panic w) end
-    | 0xe3, base :: slot :: keyp :: ty :: pty :: _ =>          (* IRVRJNAL *)
-      match load_data_from_mem keyp mem with
-      | Ok key => t_save_key t self (Some (base, pty)) slot None ty key
-      | Err e => (t, Err e) | Panic w => (t, Panic w) end
-    | 0xe4, base :: slot :: keyv :: off :: ty :: pty :: _ =>   (* IVVVJNAL *)
-      t_save_key t self (Some (base, pty)) slot (Some off) ty (word_bytes keyv)
-    | 0xe5, base :: slot :: keyv :: ty :: pty :: _ =>          (* IVVRJNAL *)
-      t_save_key t self (Some (base, pty)) slot None ty (word_bytes keyv)
-    | 0xe6, slot :: off :: size :: ty :: _ =>                  (* VVJNAL opValueChangeJournal *)
-      match vv_slice (st slot) off size with
-      | Ok v => t_save_change t self slot (Some off) ty v
-      | Err e => (t, Err e) | Panic w => (t, Panic w) end
-    | 0xe7, slot :: ty :: _ =>                                 (* VRJNAL opReferenceChangeJournal *)
-      match vr_read st keccak slot with
-      | Ok v => t_save_change t self slot None ty v
-      | Err e => (t, Err e) | Panic w => (t, Panic w) end
-    | _, _ => (t, Err "stack underflow")
-    end.
+    else (t, Err "not a journal instruction").
 End Ops.
